@@ -559,6 +559,14 @@ void op_exit_thread(World& W, int wi, bool quiet = false)
   }
   sim::exit_worker(x.w);
   x.alive = false;
+  if (x.bt_logger >= 0)
+  {
+    // C18: the logger this thread used for backtrace traffic can be taken over by another thread; what the exited thread
+    // stored stays in the logger's ring and must be replayed with the exited thread's id
+    W.loggers[x.bt_logger].bt_owner = -1;
+    if (W.loggers[x.bt_logger].bt_stored_since_flush > 0) W.r->label("thread_exited_with_stored_backtrace");
+    x.bt_logger = -1;
+  }
   if (x.has_logged)
   {
     ++W.exited_since_idle;
